@@ -127,9 +127,11 @@ func (ln *leaderNode) lastDelivered() (end int64, ok bool) {
 	return 0, false
 }
 
+// refused = false: rounds the leader served (a follower that repeats those makes no progress);
+// refused = true: rounds the leader answered with CLEAR ("wait a moment" / nothing to read).
 // identicalRounds: length of the trailing run of completed RPCs (index >= from) that carried the same
 // request and got the same answer (first message, message count, data bytes, error).
-func (ln *leaderNode) identicalRounds(from int) (int, string) {
+func (ln *leaderNode) identicalRounds(from int, refused bool) (int, string) {
 	ln.mu.Lock()
 	defer ln.mu.Unlock()
 	n, key := 0, ""
@@ -148,6 +150,9 @@ func (ln *leaderNode) identicalRounds(from int) (int, string) {
 		}
 		k += fmt.Sprintf(", %d messages, %d bytes, err=%q", r.NMsgs, r.DataBytes, r.Err)
 		if r.Cut {
+			break
+		}
+		if refused != (len(r.Msgs) > 0 && r.Msgs[0].Code == "CLEAR") {
 			break
 		}
 		if n == 0 {
